@@ -31,7 +31,7 @@ PROP = "C14"
 
 PATTERN = {"callf": "f({{x}})", "seq": "f({{x}})\ng({{y}})", "absent": "q({{x}})"}
 REPL = {"const": "h()", "one": "h({{x}})", "twice": "h({{x}}, {{x}})", "sum": "{{x}} + 1", "mul": "{{x}} * 2", "neg": "-{{x}}",
-        "k2": "k({{x}}, {{y}})"}
+        "k2": "k({{x}}, {{y}})", "ifstmt": "if {{x}}:\n    h({{x}})"}
 
 
 def repl_text(case) -> str:
@@ -47,7 +47,9 @@ def value(case, i: int) -> str:
 def stmt_text(kind: str, v: str, i: int) -> str:
     return {"m": f"f({v})", "mm": f"f(f({v}))", "am": f"y{i} = f({v}) * 2", "arg": f"g(f({v}), 0)", "neg": f"z{i} = -f({v})",
             "att": f"w{i} = f({v}).real", "two": f"f({v}); f(c{i})", "ml": f"f(\n    {v}\n)", "blk": f"if c{i}:\n    f({v})",
-            "ig": f"f({v})  # pyrefact: ignore", "n": f"g({v})"}[kind]
+            "ig": f"f({v})  # pyrefact: ignore", "n": f"g({v})",
+            "igml": f"f(\n    {v}  # pyrefact: ignore\n)", "igend": f"f(\n    {v}\n)  # pyrefact: ignore",
+            "blk2": f"if c{i}:\n    if d{i}:\n        f({v})"}[kind]
 
 
 def render(case) -> Tuple[str, List[str]]:
@@ -120,6 +122,13 @@ def ideal_dump(text: str, case, applied: List[dict], stmts: List[str]) -> str:
     targets = {id(calls[(m["s"], m["d"], m["k"])]): m for m in applied}
 
     class Sub(ast.NodeTransformer):
+        def visit_Expr(self, node):
+            if id(node.value) in targets:
+                new = instantiate(repl, {"x": node.value.args[0]})
+                if not isinstance(new[0], ast.Expr):
+                    return new                  # the replacement is a statement: it takes the place of the statement
+            return self.generic_visit(node)
+
         def visit_Call(self, node):
             if id(node) in targets:
                 new = instantiate(repl, {"x": node.args[0]})
@@ -284,8 +293,8 @@ def main(argv=None) -> int:
     rng = random.Random(seed())
     known = {e["id"] for e in rep.known_entries()}
     stats: Dict[str, int] = {}
-    runs = [("callf", dict(kinds='{"m", "mm", "am", "arg", "neg", "att", "two", "ml", "blk", "ig", "n"}', pats='{"callf", "absent"}',
-                           repls='{"const", "one", "twice", "self", "sum", "mul", "neg"}', binds='{"atom", "sum"}',
+    runs = [("callf", dict(kinds='{"m", "mm", "am", "arg", "neg", "att", "two", "ml", "blk", "blk2", "ig", "igml", "igend", "n"}', pats='{"callf", "absent"}',
+                           repls='{"const", "one", "twice", "self", "sum", "mul", "neg", "ifstmt"}', binds='{"atom", "sum"}',
                            counts="{0, 1, 2}", maxstmts=2 if t == "quick" else 3)),
             ("seq", dict(kinds='{"m", "n", "ig", "blk"}', pats='{"seq"}', repls='{"k2", "self", "const"}', binds='{"atom", "sum"}',
                          counts="{0, 1}", maxstmts=4))]
